@@ -25,7 +25,7 @@ def subst(f, atoms):
     if f[0] == 'var':
         return atoms[f[1]]
     if f[0] == 'const':
-        return f
+        return ('geq', Y, ('const', f[1]))        # a bare constant is not a Boolean atom: make it a predicate
     return tuple(subst(c, atoms) if isinstance(c, tuple) else c for c in f)
 
 
